@@ -462,10 +462,10 @@ def make_batch_jobs(ctx: Ctx, n: int, avoid_known: bool = True) -> list[dict]:
             for k in kinds:
                 tgt = "main.py" if (not c.files or rng.random() < 0.75) else rng.choice(sorted(files))
                 files[tgt] = mutate.mutate(k, files[tgt], rng, o.main)
-            # the case's own flags only for a third of the flagged cases: every distinct flag set costs a cold cache
-            flags = list(c.flags) if (c.flags and rng.random() < 0.33) else []
+            # the case's own flags only for a fifth of the flagged cases: every distinct flag set costs a cold cache
+            flags = list(c.flags) if (c.flags and rng.random() < 0.2) else []
             jobs.append({"id": f"m{i}", "origin": c.name, "kinds": kinds, "files": files, "flags": flags})
-        elif r < 0.9:
+        elif r < 0.91:
             main, files, shape = gen.program(rng)
             files = dict(files)
             files["main.py"] = main
@@ -475,10 +475,10 @@ def make_batch_jobs(ctx: Ctx, n: int, avoid_known: bool = True) -> list[dict]:
                 files["main.py"] = mutate.mutate(k, files["main.py"], rng, rng.choice(cases).main)
                 kinds.append(k)
             jobs.append({"id": f"g{i}", "origin": "gen:" + shape, "kinds": kinds, "files": files, "flags": []})
-        elif r < 0.96:
+        elif r < 0.97:
             if rng.random() < 0.5:
                 c = rng.choice(cases)
-                src, files, origin, flags = c.main, dict(c.files), c.name, list(c.flags)
+                src, files, origin, flags = c.main, dict(c.files), c.name, []
             else:
                 src, files, shape = gen.program(rng)
                 files, origin, flags = dict(files), "gen:" + shape, []
@@ -1259,7 +1259,7 @@ def search_without_lean(ctx: Ctx, runner: Runner, info: dict | None = None) -> N
     for k, (label, src) in enumerate(fams):
         # small programs (a normal run takes a fraction of a second): a short CPU limit keeps a hanging family cheap
         jobs.append({"id": f"ds{k}", "origin": label, "kinds": ["generated"] + (["defer-site:" + ",".join(unguarded)] if unguarded else []),
-                     "files": {"main.py": src}, "flags": [], "timeout": 8})
+                     "files": {"main.py": src}, "flags": [], "timeout": 5})
         ctx.dist("defer_site_family", label.split(":")[0].split("-")[0])
     # the witnesses of the known crash classes: their *exit status* and markers are still judged
     for wid, files, flags, kind in WITNESSES:
@@ -1267,15 +1267,17 @@ def search_without_lean(ctx: Ctx, runner: Runner, info: dict | None = None) -> N
             jobs.append({"id": "w_" + wid, "origin": "witness:" + wid, "kinds": ["witness"], "files": files, "flags": flags})
     jobs += make_batch_jobs(ctx, max(int(ctx.pick(300, 2000) * SCALE), 20))
     results = run_batch(ctx, runner, jobs)
-    n = 0
+    n = nh = 0
     for job, res in zip(jobs, results):
         ctx.case(("batch-nolean", job["id"]))
         text = res["out"] + res["err"]
         if res["rc"] is None or res["rc"] not in (0, 1, 2) or "INTERNAL ERROR" in text or "Traceback (most recent call last)" in text:
-            known = ctx.match_known(dict(classify(res, ""), mode="batch"))
+            sig0 = dict(classify(res, ""), mode="batch")
+            known = ctx.match_known(sig0)
             if known is None:
                 n += 1
-            if n <= 2 or known is not None:
+                nh += sig0["class"] == "hang"
+            if known is not None or (n <= 2 and not (sig0["class"] == "hang" and nh > 1)):
                 handle_batch_failure_nolean(ctx, runner, job, res)
 
 
@@ -1283,7 +1285,9 @@ def handle_batch_failure_nolean(ctx: Ctx, runner: Runner, job: dict, res: dict) 
     sig = classify(res, "")
     sig["mode"] = "batch"
     if sig["class"] == "hang":
-        again = runner.run(job["id"] + "_r", job["files"], job["flags"], observed=True, timeout=2 * runner.inner)
+        # confirm with a larger limit (the small programs of the defer-site families got 5 s: 4 × that; others 2 × 20 s)
+        again = runner.run(job["id"] + "_r", job["files"], job["flags"], observed=True,
+                           timeout=4 * job["timeout"] if job.get("timeout") else 2 * runner.inner)
         if again["rc"] is not None:
             return
         sig = classify(again, "")
@@ -1291,7 +1295,7 @@ def handle_batch_failure_nolean(ctx: Ctx, runner: Runner, job: dict, res: dict) 
     known = ctx.match_known(sig)
     if known is not None and any(k == known["id"] for k, _ in ctx.known_hits):
         return
-    files = job["files"] if known is not None else shrink(runner, job, sig, budget=30)
+    files = job["files"] if known is not None else shrink(runner, job, sig, budget=6 if sig["class"] == "hang" else 30)
     site = next((k for k in job["kinds"] if k.startswith("defer-site:")), "")
     ctx.report(sig, f"mypy {sig['class']} ({sig.get('exc') or ''} in {sig.get('file')}:{sig.get('frame')}) on {job['origin']}"
                     + (f" — reaches the unguarded {site}" if site else ""),
